@@ -78,10 +78,49 @@ def _bitfields(ctx):
             ctx.mismatch("bitfield", dict(kind=kind, header=n, setter=tab[k][1], value=v), a, " ".join(str(x) for x in impl))
 
 
+class Stamper:
+    """What the real transmitter writes for a frame when the link's packet sequence number is `seq`: one protocol object
+    per number, brought there through public entry points only (matching acknowledgements), a real `send` task per
+    frame, cancelled once the frame is on the (recording) transport."""
+    def __init__(self):
+        import vloop
+        import streams
+        self.worlds = {}
+        for seq in range(4):
+            w = vloop.LinkWorld()
+            cur = 0
+            for _ in range(seq):
+                w.rx(streams.ack(cur))
+                cur = cur % 3 + 1
+            self.worlds[seq] = w
+        self.n = 0
+
+    def wire(self, seq, frame):
+        import asyncio
+        w = self.worlds[seq]
+        asyncio.set_event_loop(w.loop)
+        self.n += 1
+        m = w.mark()
+        w.start_send(self.n, frame)
+        raws = [bytes.fromhex(e[1:]) for e in w.since(m) if e.startswith("W")]
+        w.cancel(self.n)
+        w.tasks.pop(self.n, None)
+        if len(raws) != 1:
+            raise RuntimeError("the transmitter wrote %d frames for one send" % len(raws))
+        return raws[0]
+
+    def shutdown(self):
+        for w in self.worlds.values():
+            try:
+                w.shutdown()
+            except Exception:
+                pass
+
+
 def _frames(ctx):
     from zigpy_zboss.frames import Frame
     r = ctx.rng
-    proto = mk_protocol()
+    stamper = Stamper()
     classes = gen.all_command_classes()
     frames = []
     for cls in classes:
@@ -97,14 +136,13 @@ def _frames(ctx):
         base_flags = int(f.ll_header.flags)
         hdr = f.hl_packet.header
         data = bytes(f.hl_packet.data)
-        proto._pack_seq = seq
-        f = proto._ll_checksum(proto._set_frame_flag(f))
-        raw = f.serialize()
+        raw = stamper.wire(seq, f)
         rest = bytes(r.getrandbits(8) for _ in range(r.choice([0, 0, 1, 9])))
         cases.append((seq, base_flags, hdr, data, raw, rest, f))
         lines.append("frame %d %d %s %s" % (seq, base_flags, "-" if hdr is None else int(hdr), hx(data)))
         lines.append("refdecode %s" % hx(raw + rest))
         lines.append("deframe %s" % hx(raw + rest))
+    stamper.shutdown()
     ans = ctx.driver.ask(lines) if ctx.driver else None
     for k, (seq, base_flags, hdr, data, raw, rest, f) in enumerate(cases):
         body = (hdr.serialize() if hdr else b"") + data
